@@ -112,19 +112,26 @@ func genRound2(c *Ctx) {
 			}
 			// (c) fieldContext functions: an argument error is reported before it is returned; the recover handler assigns the named error
 			if strings.HasPrefix(fn.Name(), "fieldContext_") && fn.Signature.Results().Len() == 2 {
-				for _, r := range an.Returns(fn) {
-					if fn.Recover != nil && r.Block() == fn.Recover {
+				// every `err != nil` edge of a call made by the function leads to its returns only through ec.Error
+				for _, e := range an.CondEdges(fn) {
+					empty, ok := an.EmptinessFact(e.Fact, func(v ssa.Value) bool { return an.IsErrorType(v.Type()) })
+					if !ok || empty {
 						continue
 					}
-					ev := an.ReturnedValue(r, 1)
-					if ev == nil || an.IsNilConst(an.Strip(ev)) {
-						continue
-					}
-					reported := mustPassThrough(fn, r, func(x ssa.Instruction) bool {
+					isErr := func(x ssa.Instruction) bool {
 						cc, ok := x.(ssa.CallInstruction)
 						return ok && strings.HasSuffix(an.CalleeOf(cc).FullName(), "graphql.OperationContext).Error")
-					})
-					ctxErr = append(ctxErr, ob{reported, pfx + fn.Name() + "/arg-error-reported", c.ipos(r), "ec.Error before the error return",
+					}
+					reported := true
+					for _, r := range an.Returns(fn) {
+						if fn.Recover != nil && r.Block() == fn.Recover {
+							continue
+						}
+						if !pathsPassFromBlock(e.To, r, isErr) {
+							reported = false
+						}
+					}
+					ctxErr = append(ctxErr, ob{reported, pfx + fn.Name() + "/arg-error-reported", c.ipos(e.If), "ec.Error on the error edge before any return",
 						"the field-context function returns an argument error without reporting it: the field is null with an empty error list (a non-null field then nulls its parent with no error at all)"})
 				}
 				for _, cl := range fn.AnonFuncs {
@@ -235,10 +242,11 @@ func genRound2(c *Ctx) {
 								if fa, ok := loadAddr(an.Strip(lc.Call.Args[0])).(*ssa.FieldAddr); !ok || fieldNameOf(fa) != "Values" {
 									continue
 								}
-								after := false
+								// no AddField may still follow the slot computation within the same iteration of the fields loop
+								after := true
 								for _, a := range adds {
-									if an.Before(a, in) {
-										after = true
+									if reachesWithinIteration(in, a) {
+										after = false
 									}
 								}
 								slotAfterAdd = append(slotAfterAdd, ob{after, pfx + top.Name() + "/deferred-slot-index", c.ipos(in), "slot computed after the field was added",
@@ -255,6 +263,22 @@ func genRound2(c *Ctx) {
 												isNew = true
 											}
 										}
+									}
+								}
+								// `dfs := m[label]; if dfs == nil { … m[label] = dfs }`: the miss is a nil lookup result
+								for _, fct := range an.Facts(in) {
+									if empty, ok := an.EmptinessFact(fct, func(v ssa.Value) bool {
+										for _, d := range append(an.Defs(v), an.Strip(v)) {
+											if ex, ok := d.(*ssa.Extract); ok {
+												d = ex.Tuple
+											}
+											if lk, ok := d.(*ssa.Lookup); ok && (an.Strip(lk.X) == an.Strip(x.Map) || an.SameVar(lk.X, x.Map)) {
+												return true
+											}
+										}
+										return false
+									}); ok && empty {
+										isNew = true
 									}
 								}
 								mapOverwrite = append(mapOverwrite, ob{isNew, pfx + top.Name() + "/deferred-map-store", c.ipos(in), "a group is created only for a label not seen yet",
@@ -302,4 +326,36 @@ func fieldOfCollected(v ssa.Value) string {
 		return ""
 	}
 	return n
+}
+
+// reachesWithinIteration: b is reachable from a without passing through the header of the innermost loop that contains a.
+func reachesWithinIteration(a, b ssa.Instruction) bool {
+	if a.Parent() != b.Parent() {
+		return false
+	}
+	if a.Block() == b.Block() {
+		return an.InstrIndex(a) < an.InstrIndex(b)
+	}
+	var header *ssa.BasicBlock
+	best := -1
+	for _, l := range an.Loops(a.Parent()) {
+		if l.Blocks[a.Block()] && (best < 0 || len(l.Blocks) < best) {
+			header, best = l.Header, len(l.Blocks)
+		}
+	}
+	seen := map[*ssa.BasicBlock]bool{}
+	var walk func(blk *ssa.BasicBlock) bool
+	walk = func(blk *ssa.BasicBlock) bool {
+		for _, s := range blk.Succs {
+			if s == header || seen[s] {
+				continue
+			}
+			seen[s] = true
+			if s == b.Block() || walk(s) {
+				return true
+			}
+		}
+		return false
+	}
+	return walk(a.Block())
 }
